@@ -199,6 +199,68 @@ func init() {
 						judge(c, "text-in-block-"+h.name, src, "<"+h.outPre+out+">")
 					}
 				}})
+			// the same texts through template files: page, layout, insert block, component file, slot body,
+			// between slots; rendered with String and written with Response
+			fileTexts := append(append([]string{}, texts...), "100% sure", "%d %s %v", "50%", "%", "%%", "a%", "\u00a0", "\f", "é\u3000", "i", "if", "It")
+			secs = append(secs, core.Section{Name: "text-through-files", Exhaustive: true, N: len(fileTexts),
+				Run: func(c *core.Ctx, i int) {
+					t := fileTexts[i]
+					out, at := scanText(t)
+					if at >= 0 || strings.HasSuffix(t, "\\") || strings.HasSuffix(t, "{") {
+						return
+					}
+					files := map[string]string{
+						"layouts/main.tw":   "L<" + t + ">@reserve(\"body\")<" + t + ">",
+						"components/box.tw": "C<" + t + ">@slot(\"a\")|@slot(\"b\")<" + t + ">",
+						"plain.tw":          "<" + t + ">",
+						"withlayout.tw":     "@use(\"~main\")@insert(\"body\")I<" + t + ">@end",
+						"withcomp.tw":       "P<" + t + ">@component(\"~box\")@slot(\"a\")S<" + t + ">@end {{-- between --}} @slot(\"b\")T<" + t + ">@end {{-- last --}} @end<" + t + ">",
+						"gap.tw":            "G@component(\"~box\")<" + t + ">",
+						"components/bare.tw": "[@slot(\"a\")]",
+						"gapslot.tw":        "G@component(\"~bare\")" + t + "@slot(\"a\")S@end@end",
+					}
+					tpl, err := loadTree(c, "c05tree", files, ".tw")
+					c.Nontrivial("files:" + t)
+					if err != nil {
+						c.Violation("text-through-files:load", "a tree holding only text and basic constructs was rejected: "+err.Error(), map[string]any{"text": t, "files": describeFiles(files)})
+						return
+					}
+					if tpl == nil {
+						return
+					}
+					want := map[string]string{
+						"plain":      "<" + out + ">",
+						"withlayout": "L<" + out + ">I<" + out + "><" + out + ">",
+						"withcomp":   "P<" + out + ">C<" + out + ">S<" + out + ">|T<" + out + "><" + out + "><" + out + ">",
+						"gap":        "GC<" + out + ">|<" + out + "><" + out + ">",
+					}
+					// a text run between a component and a slot directive is text unless it is only blanks:
+					// whatever the slot then means, the run itself must come out
+					if strings.Trim(t, " \t\r\n") != "" {
+						if got, _ := renderPage(c, tpl, "gapslot", nil); !got.Panicked && got.Err == nil && !strings.Contains(got.Out, out) {
+							c.Violation("text-through-files:gapslot", fmt.Sprintf("the text between @component(...) and @slot is missing from %q", got.Out), map[string]any{"text": t, "files": describeFiles(files)})
+						}
+					}
+					for _, page := range []string{"plain", "withlayout", "withcomp", "gap"} {
+						got, _ := renderPage(c, tpl, page, nil)
+						if got.Panicked {
+							continue
+						}
+						if got.Err != nil || got.Out != want[page] {
+							c.Violation("text-through-files:"+page, fmt.Sprintf("String(%s) gave %s, want %q", page, got.Describe(), want[page]), map[string]any{"text": t, "files": describeFiles(files)})
+							continue
+						}
+						rec := newRecorder()
+						var rerr error
+						c.Eval(1)
+						if c.Guard(func() { rerr = tpl.Response(rec, page, nil) }) {
+							continue
+						}
+						if rerr != nil || rec.body.String() != want[page] {
+							c.Violation("text-through-files:response", fmt.Sprintf("Response(%s) wrote %q (error %v), want %q", page, rec.body.String(), rerr, want[page]), map[string]any{"text": t, "files": describeFiles(files)})
+						}
+					}
+				}})
 			all := allAtoms()
 			textish := append(append([]string{}, TextAtoms...), MoreDirectiveAtoms...)
 			secs = append(secs, core.Section{Name: "random", N: nrand, Run: func(c *core.Ctx, i int) {
